@@ -28,7 +28,10 @@ let () =
         if c.kind = "plain" then begin
           let n = List.length lw in
           let ((src, w), par) = c07_resample fops lw (ob u1) in
-          Caseio.out_mat_shape "src" n 1 (col_of_ints (List.map int_of_z src));
+          (* the input particle each MEMBER of an output particle was copied from *)
+          Caseio.out_mat_shape "src" n 1 (col_of_ints (List.map (fun p -> int_of_z p.p_state) src));
+          Caseio.out_mat_shape "src_mean" n 1 (col_of_ints (List.map (fun p -> int_of_z p.p_mean) src));
+          Caseio.out_mat_shape "src_cov" n 1 (col_of_ints (List.map (fun p -> int_of_z p.p_cov) src));
           Caseio.out_mat_shape "weights" n 1 (col_of_lvec w);
           Caseio.out_mat_shape "parents" n 1 (col_of_ints (List.map int_of_nat par));
           Caseio.out_mat_shape "csw" n 1 (col_of_lvec (c07_csw fops lw));
